@@ -22,8 +22,8 @@
     U64AboveI64Max         a u64 value above i64::MAX is kept in memory as text
     NumericLookingString   a string/enum literal that parses as a time or an i64 becomes a numeric condition
     StringOrdering         [<,<=,>,>=] on a string field: [StringCondition] answers false
-    NullSpelling           the literal "" or "null" on an optional string field: in memory an absent
-                           cell reads "" and a null cell reads "null"
+    NullSpelling           the literal "" or "null" on an optional string/enum field (or != on an optional
+                           enum field): in memory an absent cell reads "" and a null cell reads "null"
     TemporalNegativeLiteral a negative instant on a datetime field: temporal_pruner.rs clamps it to 0 *)
 From Coq Require Import ZArith NArith List Bool.
 From Snel Require Import Base.Bytes Model.Time Model.Value Model.Expr Model.Sem Model.Cond.
@@ -76,7 +76,7 @@ Definition atom_class (d : fdecl) (op : cmp) (l : lit) : option kclass :=
       | KEnum vs =>
           if is_range op then Some IllTyped
           else if negb (is_plain_str s) then Some NumericLookingString
-          else if f_opt d && null_like s then Some NullSpelling
+          else if f_opt d && (null_like s || match op with CNe => true | _ => false end) then Some NullSpelling
           else match op with
                | CNe => if mem_bytes s vs then None else Some EnumUnknownVariant
                | _ => None
